@@ -17,14 +17,14 @@ CHECKS = {
                         "code (a claim is accepted up to and including the block whose header reveals the entropy; that rule itself is C31's subject). "
                         "Below height 69583 the reward code pays nothing to a servicer with a separate non-validator output address (main-net incident replay): "
                         "the model expects a zero mint there."),
-    "C35": c("relays", "TestC35", dict(checks=400, timeout=600), dict(checks=1500, shards=14, timeout=1500),
+    "C35": c("relays", "TestC35", dict(checks=500, timeout=600), dict(checks=1500, shards=14, timeout=1500),
              technique="single-alteration (mutation-style) input generation against the real pocketcore keeper of a chain-simulator node: every relay is a valid relay "
                        "from the relay factory with at most one authorization element altered; oracle = rejection with unchanged evidence and no backend call, "
                        "plus non-vacuity (unaltered relays served, signed by the node key, recorded exactly once)",
              design_ref="DESIGN.md §7 C35",
-             level_text="38 alteration kinds x generated worlds (1-3 peers, 2-4 blocks per session, context anywhere in sessions 2-4, lean / non-lean node mode, "
+             level_text="39 alteration kinds x generated worlds (1-3 peers, 2-4 blocks per session, context anywhere in sessions 2-4, lean / non-lean node mode, "
                         "session sync allowance 0-1, validator set of a chain changed by real stake / edit-stake transactions before or after the latest session's "
-                        "first block, node session cache empty), about 9 000 relays per quick run; exploration only, no absence claim. Only single alterations are generated.",
+                        "first block, node session cache empty), about 11 000 relays per quick run; exploration only, no absence claim. Only single alterations are generated.",
              level_note="Keeper level: HandleRelay is called directly with the context app.NewContext(lastHeight) builds; the RPC layer (JSON decoding, sync-status gate) is "
                         "not exercised. The hosted chain is an in-process HTTP server registered through Keeper.SetHostedBlockchains on the application's own keeper. "
                         "Stakes are laid out so that session membership is decidable without re-implementing selection (stakers of a chain at the session's first "
